@@ -804,6 +804,27 @@ impl quote::ToTokens for ImplWhereClause<'_, '_> {
             self.push_impl_t_bounds(stream);
         });
 
+        // When `T` implements the trait itself its supertraits come with that. Delegating elsewhere,
+        // nothing says that `Impl<T>` has them (`trait Foo: Send`, `trait B: A`): the impl is for those that do.
+        let delegates_to_self = matches!(
+            &self.attr.delegation_kind,
+            None | Some(SpanOpt(Delegate::BySelf, _))
+        );
+        if !delegates_to_self {
+            if let Supertraits::Some { bounds, .. } = &self.out_trait.supertraits {
+                if !bounds.is_empty() {
+                    punctuator.push_fn(|stream| {
+                        push_tokens!(
+                            stream,
+                            syn::token::SelfType(self.span),
+                            syn::token::Colon(self.span),
+                            bounds
+                        );
+                    });
+                }
+            }
+        }
+
         for predicate in &self.trait_generics.where_predicates {
             punctuator.push(predicate);
         }
